@@ -481,7 +481,13 @@ def mirror_covariance_matrix(cov_mat):
         n_subaps (ndarray): Number of sub-aperture in each WFS
     """
 
-    return numpy.bitwise_or(cov_mat.view("int32"), cov_mat.T.view("int32")).view("float32")
+    # The matrix is assembled in its lower block triangle, with the diagonal blocks computed in full: reflect the lower
+    # triangle. (OR-ing the bit patterns of the matrix and its transpose is only right where one of the two is exactly +0.0;
+    # the diagonal blocks are symmetric up to rounding only, and the OR of two nearly equal, or two tiny, floats can be
+    # any number - of order one when the entries are not as small as they are for wavelengths given in metres.)
+    mirrored = numpy.tril(cov_mat)
+    mirrored += numpy.tril(cov_mat, -1).T
+    return mirrored
 
 def create_tomographic_covariance_reconstructor(covariance_matrix, n_onaxis_subaps, svd_conditioning=0):
     """
